@@ -50,6 +50,44 @@ fn map_kind(k: &str, map: &HashMap<String, String>) -> String {
     k.to_string()
 }
 
+/// programs rich in semantic diagnostics whose names also occur inside other tokens of the same statement
+/// (C12: a semantic diagnostic's range is a node range)
+fn semrange_program(rng: &mut Rng) -> String {
+    let names = ["a", "f", "s", "t", "q", "in", "x", "é", "ab", "k", "u", "pi", "h", "cx"];
+    let n = names[rng.below(names.len() as u64) as usize];
+    let m = names[rng.below(names.len() as u64) as usize];
+    let mut s = String::new();
+    if rng.below(3) == 0 {
+        s.push_str(&format!("gate {} w {{ }}\n", ["s", "t", "h", "x", "cx", "sdg", "id"][rng.below(7) as usize]));
+    }
+    if rng.below(2) == 0 {
+        s.push_str("include \"stdgates.inc\";\n");
+    }
+    s.push_str("int k0 = 3;\nqubit q0;\nqubit q1;\n");
+    let k = 2 + rng.below(6);
+    for _ in 0..k {
+        let line = match rng.below(14) {
+            0 => format!("float {n} = 1.0;"),
+            1 => format!("float {n} = 2.0 * float(k0);"),
+            2 => format!("int {n}2 = 5;"),
+            3 => format!("int {n} = {n}2 + int[32]({n}2);"),
+            4 => format!("int {n} = {m};"),
+            5 => format!("let {n} = q0 ++ q1;"),
+            6 => format!("{n}{m} = {n} + 1;"),
+            7 => format!("bit {n} = 1.5;"),
+            8 => format!("qubit {n};"),
+            9 => format!("if (true) {{ qubit {n}{n}; int {m} = {n}; }}"),
+            10 => format!("gate {n} w0 {{ {m} w0; }}"),
+            11 => format!("def {n}(int {m}) -> int {{ return {m} + {n}{m}; }}"),
+            12 => format!("{n} q0, q1, q0;"),
+            _ => format!("const int {n} = {m} + 1; int[{n}] {m}{n};"),
+        };
+        s.push_str(&line);
+        s.push_str(if rng.below(4) == 0 { " " } else { "\n" });
+    }
+    s
+}
+
 pub fn run(args: &[String]) {
     silence_panics();
     let mut w = out();
@@ -57,6 +95,27 @@ pub fn run(args: &[String]) {
     let n = arg_u64(args, "--random", 100);
     let shard = arg_u64(args, "--shard", 0);
     let nshards = arg_u64(args, "--nshards", 1);
+    for case in 0..arg_u64(args, "--semranges", 0) {
+        if case % nshards != shard {
+            continue;
+        }
+        let mut rng = Rng::new(seed.wrapping_mul(31_000_003).wrapping_add(case));
+        let text = semrange_program(&mut rng);
+        let o = run_sema(&text);
+        let flat = text.replace('\n', "\\n");
+        let verdict = if o.any_syntax {
+            "SKIP the generated program has syntax diagnostics".to_string()
+        } else if o.panic.is_some() {
+            // a panic is C03's business (known classes exist): not decided here
+            "ok".to_string()
+        } else {
+            match sem_range_violation(&text, &o) {
+                Some(m) => format!("{m} ;; {flat}"),
+                None => "ok".to_string(),
+            }
+        };
+        writeln!(w, "meta\tsemrange\t{}\t{verdict}", o.errors.len()).unwrap();
+    }
     for case in 0..n {
         if case % nshards != shard {
             continue;
@@ -92,10 +151,17 @@ pub fn run(args: &[String]) {
             writeln!(w, "meta\tbase\t{size}\tSKIP the base program panics or has syntax diagnostics (C03/C04 decide that)").unwrap();
             continue;
         }
+        // (0) the spans of the semantic diagnostics (C12)
+        if let Some(m) = sem_range_violation(&text, &base) {
+            writeln!(w, "meta\tsemrange\t{size}\t{m} ;; {flat}").unwrap();
+        }
         // (1) layout
         for tr in [1u8, 2u8] {
             let (t2, _) = print_program(&prog, Layout { redundant_parens: false, trivia: tr }, &mut rng);
             let o = run_sema(&t2);
+            if let Some(m) = sem_range_violation(&t2, &o) {
+                writeln!(w, "meta\tsemrange\t{size}\t{m} ;; {}", t2.replace('\n', "\\n")).unwrap();
+            }
             let verdict = if o.panic.is_some() || o.any_syntax {
                 format!("FAIL C17: a re-layout panics or has syntax diagnostics ;; {}", t2.replace('\n', "\\n"))
             } else if o.stmts != base.stmts {
